@@ -4,8 +4,11 @@ pub mod unit_codegen {
     use super::*; use super::struct_layout::*;
     pub struct Bitfield { pub off: Option<usize>, pub into_unit: usize }
     impl Bitfield { pub fn offset(&self) -> Option<usize> { self.off } pub fn offset_into_unit(&self) -> usize { self.into_unit } }
-    pub struct BfList { pub a: [Bitfield; 1] }
-    impl BfList { pub fn first(&self) -> Option<&Bitfield> { Some(&self.a[0]) } pub fn len(&self) -> usize { 1 } }
+    pub struct BfList { pub a: [Bitfield; 3], pub n: usize }
+    pub struct BfIter<'a> { l: &'a BfList, i: usize }
+    impl<'a> Iterator for BfIter<'a> { type Item = &'a Bitfield; fn next(&mut self) -> Option<&'a Bitfield> { if self.i >= 3 { return None; } let k = self.i; self.i += 1; if k < self.l.n { Some(&self.l.a[k]) } else { None } } }
+    impl BfList { pub fn first(&self) -> Option<&Bitfield> { if self.n > 0 { Some(&self.a[0]) } else { None } } pub fn last(&self) -> Option<&Bitfield> { if self.n > 0 { Some(&self.a[self.n - 1]) } else { None } }
+                  pub fn len(&self) -> usize { self.n } pub fn iter(&self) -> BfIter<'_> { BfIter { l: self, i: 0 } } }
     pub struct Toks { pub a: [Option<proc_macro2::TokenStream>; 4], pub n: usize }
     impl Toks { pub fn new() -> Self { Toks { a: [None; 4], n: 0 } } pub fn extend<I: IntoIterator<Item = proc_macro2::TokenStream>>(&mut self, it: I) { for t in it { self.a[self.n] = Some(t); self.n += 1; } } }
     pub fn unit_tail(ctx: &BindgenContext, struct_layout: &mut StructLayoutTracker, fields: &mut Toks, methods: &mut Toks, bfields: &BfList, layout: Layout,
@@ -158,42 +161,58 @@ mod proofs {
         let _ = t.requires_explicit_align(layout);
     }
     /// `struct { M m0; T f : w; }` - T of size = alignment TA, m0 of alignment A0 and symbolic size: the allocation unit member must start at the byte
-    /// where C starts the bit-field (the accessors address it at bit 0 of the unit). C side: Itanium rule (a bit-field that would straddle a
-    /// T-aligned boundary starts at the next one).  Unit as bitfields_to_allocation_units builds it (kernel k2_alloc of C03): a byte array of
-    /// ceil(w / 8) bytes starting at the first bit-field.
-    fn unit_case<const A0: usize, const TA: usize>() {
+    /// where C starts the bit-field run.  C side: Itanium rule (a bit-field that would straddle a T-aligned boundary starts at the next one).
+    /// PK: the struct is __attribute__((packed)) - members are not aligned, but a zero-width bit-field in front of the run still pushes it to a boundary
+    /// (g bytes further).  Unit as bitfields_to_allocation_units builds it (kernel k2_alloc of C03): a byte array of ceil(bits / 8) bytes that starts at the
+    /// FIRST bit-field's libclang offset; `into_unit` is bindgen's own idea of where that first field sits inside the unit (0 when it agrees with clang,
+    /// more when its straddle prediction differs, e.g. for a packed bit-field) and must not make anything panic.
+    fn unit_case<const A0: usize, const TA: usize, const PK: bool>() {
         let m: usize = kani::any(); kani::assume(m >= 1 && m <= 6); let s0 = m * A0;
         let w: usize = kani::any(); kani::assume(w >= 1 && w <= 8 * TA);
         let b0 = s0 * 8;
-        let c_first = if (b0 % (TA * 8)) + w > TA * 8 { up(b0, TA * 8) } else { b0 };
-        let sa = mx(A0, TA);
+        let g: usize = kani::any(); kani::assume(g <= 7);
+        let c_first = if PK { b0 + 8 * g } else if (b0 % (TA * 8)) + w > TA * 8 { up(b0, TA * 8) } else { b0 };
+        let sa = if PK { 1 } else { mx(A0, TA) };
         let csize = up((c_first + w + 7) / 8, sa);
-        let unit_size = (w + 7) / 8;
+        let into_unit: usize = kani::any(); kani::assume(into_unit <= 64);
+        let unit_size = (into_unit + w + 7) / 8;      // (a second field only appears in the bit-field list below; sizes are checked for the one-field unit)
+        kani::assume(into_unit == 0 || !PK);     // the size model below (unit ends with the field) is for into_unit = 0; other values only exercise panic freedom
         let ctx = BindgenContext { opts: Options { force_explicit_padding: kani::any(), enable_cxx_namespaces: kani::any(), flexarray_dst: false }, ptr_size: 8 };
         let comp = CompInfo { union_: false, rust_union: (false, false) };
         let layout = Layout::new(csize, sa);
         let ty = Type { layout: Some(layout), kind: TypeKind::Comp };
-        let mut t = StructLayoutTracker::new(&ctx, &comp, &ty, "s", FieldVisibilityKind::Public, false);
+        let mut t = StructLayoutTracker::new(&ctx, &comp, &ty, "s", FieldVisibilityKind::Public, PK);
         let pad0 = field(t.saw_field_with_layout("m", Layout::new(s0, A0), Some(0)));
         assert!(pad0.is_none(), "padding in front of the first member");
         let ulayout = Layout::new(unit_size, 1);
         let unit_ty = helpers::bitfield_unit(&ctx, ulayout);
         let mut fields = unit_codegen::Toks::new(); let mut methods = unit_codegen::Toks::new();
-        let bfs = unit_codegen::BfList { a: [unit_codegen::Bitfield { off: Some(c_first), into_unit: 0 }] };
+        // the run as bitfields_to_allocation_units records it: optionally a leading zero-width bit-field (recorded against an EARLIER start: its own offset,
+        // offset_into_unit 0), then the first real field at the unit start, then a second field right behind it
+        let lead: bool = kani::any(); let lead_off: usize = kani::any(); kani::assume(lead_off % 8 == 0 && lead_off >= b0 && lead_off <= c_first);
+        let w2: usize = kani::any(); kani::assume(w2 >= 1 && w2 <= 8);
+        let f1 = unit_codegen::Bitfield { off: Some(c_first), into_unit };
+        let f2 = unit_codegen::Bitfield { off: Some(c_first + w), into_unit: w };
+        let z = unit_codegen::Bitfield { off: Some(lead_off), into_unit: 0 };
+        let two: bool = kani::any(); kani::assume(two || into_unit == 0);      // a mispredicted first field (into_unit > 0) is only recoverable through a later, consistent one
+        let bfs = if lead { unit_codegen::BfList { a: [z, f1, f2], n: if two { 3 } else { 2 } } } else { unit_codegen::BfList { a: [f1, f2, z], n: if two { 2 } else { 1 } } };
         unit_codegen::unit_tail(&ctx, &mut t, &mut fields, &mut methods, &bfs, ulayout, unit_ty, unit_ty, FieldVisibilityKind::Public, kani::any());
         let tail = field(t.add_tail_padding("s", layout));
         let pad = field(t.pad_struct(layout));
-        // ---- Rust side: repr(C) over m0, what unit_tail pushed (the unit member is the last thing it pushed), tail padding ----
+        // ---- Rust side: repr(C[, packed]) over m0, what unit_tail pushed (the unit member is the last thing it pushed), tail padding ----
+        let n = if PK { 1 } else { 0 };
         let mut rcur = 0usize; let mut maxa = 1usize;
-        place(&mut rcur, &mut maxa, s0, A0, 0);
+        place(&mut rcur, &mut maxa, s0, A0, n);
         assert!(fields.n >= 1 && fields.n <= 2, "BitfieldUnit::codegen pushes the unit member, possibly after one padding member");
         let mut unit_off = 0usize;
-        let mut j = 0; while j < 4 { if j < fields.n { match fields.a[j] { Some(proc_macro2::TokenStream::Field(f)) => { unit_off = place(&mut rcur, &mut maxa, f.size, f.align, 0); if j == fields.n - 1 { assert!(f.size == unit_size && f.align == 1, "unit member is not the byte array of the unit"); } }, _ => assert!(false, "not a member") } } j += 1; }
+        let mut j = 0; while j < 4 { if j < fields.n { match fields.a[j] { Some(proc_macro2::TokenStream::Field(f)) => { unit_off = place(&mut rcur, &mut maxa, f.size, f.align, n); if j == fields.n - 1 { assert!(f.size == unit_size && f.align == 1, "unit member is not the byte array of the unit"); } }, _ => assert!(false, "not a member") } } j += 1; }
         assert!(unit_off * 8 == c_first, "the bit-field allocation unit does not start where C starts its first bit-field: every accessor of the unit reads and writes the wrong bytes");
-        if let Some(p) = tail { place(&mut rcur, &mut maxa, p.size, p.align, 0); }
-        if let Some(p) = pad { place(&mut rcur, &mut maxa, p.size, p.align, 0); }
-        assert!(up(rcur, sa) == csize, "struct size differs between C and the emitted Rust struct");
-        kani::cover!(c_first != b0, "bit-field pushed to the next boundary of its type");
+        if into_unit == 0 {
+            if let Some(p) = tail { place(&mut rcur, &mut maxa, p.size, p.align, n); }
+            if let Some(p) = pad { place(&mut rcur, &mut maxa, p.size, p.align, n); }
+            assert!(up(rcur, sa) == csize, "struct size differs between C and the emitted Rust struct");
+        }
+        kani::cover!(c_first != b0, "bit-field run pushed to a later boundary");
         kani::cover!(c_first == b0, "bit-field packed right behind the member");
     }
     /*GENERATED*/
